@@ -41,10 +41,13 @@ MANIFEST = dict(
          "true LCM whenever it stays below the cap and then every object's row index is integral and denotes its beat; with the cap the "
          "row is less than one row (1/96 beat) early; a written measure holds each placed note's symbol in its (row, column) cell and '0' "
          "elsewhere when no two notes share a cell; padding rows are keys wide for every key count; #TAG:value items and #SELECTABLE are "
-         "read back as written; the OLD header/padding behaviours are refuted by real witnesses. Whole-file denotation of the written "
-         "text (cells -> sm_denote over the joined text; per-object beats, pending the tm_beats half of C10) is not proved for all mapsets "
-         "(sm_write_denotes is _partial); it is established per run by in-Coq evaluation of the reference interpreter sm_denote on the "
-         "implementation's text.",
+         "read back as written; the OLD header/padding behaviours are refuted by real witnesses. WHOLE FILE (C03_sm_write_denotes): for "
+         "every mapset of the decidable exact domain c03_domb (Formats/SMWriteDom.v: #OFFSET = first tempo point, shared on-grid tempo rows "
+         "with two-decimal beats, objects on the snap grid, no two events in one cell, true LCM of every measure <= 384) the writer "
+         "succeeds and every exact rendering of its tokens is a well-formed text whose sm_denote has the mapset's header fields and, per "
+         "chart and kind, a permutation of the chart's objects with equal columns, times and lengths. Outside the exact regime (cap "
+         "reached, tempo beats rounded to two decimals) the 1/96-beat bound is established per run by in-Coq evaluation of sm_denote on "
+         "the implementation's text, not proved.",
     note="Trusted: Coq kernel+VM, generator/serialiser, table translator, repr(float) as a value oracle; binary64 rounding measured not proved. "
          "Former findings sm-selectable-no (16f3fe3), sm-pad-width (d872b70), rate-offset-unscaled (0398fe5) are fixed; the old "
          "behaviours survive only as named OLD variants for the _refuted witnesses; the runner accepts the current behaviour only.",
